@@ -40,13 +40,19 @@ func init() {
 			r := Sub(seed, "config")
 			s := &C13Spec{Orders: genOrders(r, seed), TapeSeed: mix(seed, "tape"), MaxTrials: 200, MaxFailRate: 1e-9}
 			if r.Chance(0.4) {
-				s.MaxTrials = pick(r, []int{1, 2, 3, 5, 200})
+				s.MaxTrials = pick(r, []int{1, 2, 3, 5, 200, 200, 0, -1, 1000})
 				s.MaxFailRate = pick(r, []float64{1e-9, 1e-3, 0.5})
 			}
 			switch k := r.Intn(10); {
 			case k < 5:
 				s.Kind = "char"
 				cc := genCharCfg(r, charOpt{small: r.Chance(0.6), budget: 100000, maxLen: 10, maxReq: 5})
+				if r.Chance(0.08) {
+					cc = genLargeCharCfg(r)
+					if cc.Length > 64 {
+						cc.Length = pick(r, []int{4, 8, 16})
+					}
+				}
 				if r.Chance(0.1) {
 					cc.Length = pick(r, []int{0, -1, -7})
 				}
@@ -131,6 +137,8 @@ func ratToFloat(r *big.Rat) float64 {
 func runC13(c *Ctx, si interface{}) {
 	s := si.(*C13Spec)
 	curOrders = s.Orders
+	knobZeroTrials = true
+	defer func() { knobZeroTrials = false }()
 	withKnobs(s.MaxTrials, s.MaxFailRate, func() {
 		switch s.Kind {
 		case "char":
@@ -222,7 +230,7 @@ func c13Char(c *Ctx, s *C13Spec) {
 			c.Violate("accepted-unhonourable", "", "%s: Generate returned %q but must refuse (%s)", desc, res.Pw.S, why)
 			return
 		}
-		if len(res.Tape.Draws) > s.MaxTrials*maxInt(cfg.Length, 0) {
+		if len(res.Tape.Draws) > maxInt(s.MaxTrials, 0)*maxInt(cfg.Length, 0) {
 			c.Violate("too-many-attempts", "", "%s: %d draws for at most %d attempts", desc, len(res.Tape.Draws), s.MaxTrials)
 			return
 		}
@@ -250,7 +258,7 @@ func c13Char(c *Ctx, s *C13Spec) {
 				c.Violate("invalid-password", "", "%s returned %q: %s", desc, res.Pw.S, whyNot)
 				return
 			}
-			if len(res.Tape.Draws) > s.MaxTrials*cfg.Length {
+			if len(res.Tape.Draws) > maxInt(s.MaxTrials, 0)*cfg.Length {
 				c.Violate("too-many-attempts", "", "%s: %d draws for at most %d attempts of %d", desc, len(res.Tape.Draws), s.MaxTrials, cfg.Length)
 				return
 			}
